@@ -315,7 +315,11 @@ class Envelope:
 
         # Check if given states are part of this envelope
         for s in states:
-            assert s in [self.fock, self.polarization]
+            if s is not self.fock and s is not self.polarization:
+                raise ValueError(
+                    "Given states have to be members of the envelope, "
+                    "use env.fock and env.polarization"
+                )
             if s is not None and s.measured:
                 raise ValueError("The state has already been destructively measured")
 
@@ -1096,6 +1100,13 @@ class Envelope:
         )
         from photon_weave.state.fock import Fock
         from photon_weave.state.polarization import Polarization
+
+        for s in states:
+            if s is not self.polarization and s is not self.fock:
+                raise ValueError(
+                    "Given states have to be members of the envelope, "
+                    "use env.fock and env.polarization"
+                )
 
         # Check that correct operation is applied to the correct system
         if isinstance(operation._operation_type, FockOperationType):
